@@ -466,6 +466,7 @@ func (t *Tree) countRules(n *node, ruleReached []bool) {
 	switch n.GetType() {
 	case TypeRule:
 		name, id := n.String(), n.GetID()
+		verifGate("count", "rule", name)
 		if count, ok := t.rulesCount[name]; ok {
 			t.rulesCount[name] = count + 1
 		} else {
@@ -492,6 +493,7 @@ func (t *Tree) checkRecursion(n *node, ruleReached []bool) bool {
 	switch n.GetType() {
 	case TypeRule:
 		id := n.GetID()
+		verifGate("rec", "rule", n.String())
 		if ruleReached[id] {
 			t.warn(fmt.Errorf("possible infinite left recursion in rule '%v'", n))
 			return false
@@ -530,6 +532,7 @@ func (t *Tree) checkRecursion(n *node, ruleReached []bool) bool {
 }
 
 func (t *Tree) warn(e error) {
+	verifGate("", "warn", e.Error())
 	if t.werr == nil {
 		t.werr = fmt.Errorf("warning: %w", e)
 		return
@@ -679,6 +682,8 @@ func (t *Tree) Compile(file string, args []string, out io.Writer) (err error) {
 	wg := sync.WaitGroup{}
 
 	wg.Go(func() {
+		verifGate("count", "begin", "")
+		defer verifGate("count", "end", "")
 		ruleReached := make([]bool, t.RulesCount)
 		for n := range t.Iterator() {
 			if n.GetType() == TypeRule {
@@ -696,6 +701,8 @@ func (t *Tree) Compile(file string, args []string, out io.Writer) (err error) {
 	})
 
 	wg.Go(func() {
+		verifGate("rec", "begin", "")
+		defer verifGate("rec", "end", "")
 		ruleReached := make([]bool, t.RulesCount)
 		for n := range t.Iterator() {
 			if n.GetType() == TypeRule {
@@ -705,8 +712,10 @@ func (t *Tree) Compile(file string, args []string, out io.Writer) (err error) {
 	})
 
 	wg.Wait()
+	verifGate("main", "waited", "")
 
 	if t._switch {
+		verifGate("main", "rewrite", "")
 		var optimizeAlternates func(node *node) (consumes bool, s *set.Set)
 		cache := make([]struct {
 			reached  bool
